@@ -3,7 +3,7 @@
 # /verif/seeded/<seed-id>/patch.diff applied, and prints the verdict line and the first classes of the replay.
 # (Serialised with the sweeps through .build/sweep.lock; the scratch copy is removed afterwards.)
 i=$1; tier=${2:-quick}; p=$(echo $i | cut -c1-3)
-S=/tmp/sr-$i-$$; rm -rf $S; mkdir -p $S && cp -r /repo $S/repo && git -C $S/repo apply /verif/seeded/$i/patch.diff || { echo "APPLYFAIL $i"; rm -rf $S; exit 2; }
+S=/tmp/sr-$i-$$; rm -rf $S; mkdir -p $S && cp -r /repo $S/repo && { git -C $S/repo apply /verif/seeded/$i/patch.diff 2>/dev/null || git -C $S/repo apply -3 /verif/seeded/$i/patch.diff 2>/dev/null; } || { echo "APPLYFAIL $i"; rm -rf $S; exit 2; }
 h=$(python3 -c "import hashlib;print(hashlib.md5('$S/repo'.encode()).hexdigest()[:8])")
 cd /verif
 VERIF_REPO=$S/repo flock /verif/.build/sweep.lock ./check $p --tier $tier | grep -v KNOWN | tail -1 | sed "s/^/$i: /"
